@@ -22,18 +22,18 @@ PROPS = {
               "Gx.checkMonitor_sound", "Gx.checkScheme_sound"] + COMMON,
              ["Gx.Pins.argument_maps"],
              ns.make_run(be.c03_case, 10, 150, be.big_cfg, extra=be.cond_extra, quick_s=170, case_s=120), be.c03_case),
-    "C04": P("GotranxProofs.Properties.C04 GotranxProofs.GenValid GotranxProofs.GenValidMon",
-             ["Gx.GenValid.genRhs_valid", "Gx.GenValid.genEuler_valid", "Gx.GenValidMon.genMonitor_valid", "Gx.GenValidMon.genMonitor_correct", "Gx.GenValid.slot_map_self", "Gx.C04.index_bijective", "Gx.C04.slotOf_iff", "Gx.C04.layout_counts", "Gx.C04.init_sound", "Gx.C04.init_unknown_key",
+    "C04": P("GotranxProofs.Properties.C04 GotranxProofs.GenValid GotranxProofs.GenValidMon GotranxProofs.EndToEndAll",
+             ["Gx.EndToEnd.all_generators_total", "Gx.EndToEnd.monitor_end_to_end", "Gx.GenValid.genRhs_valid", "Gx.GenValid.genEuler_valid", "Gx.GenValidMon.genMonitor_valid", "Gx.GenValidMon.genMonitor_correct", "Gx.GenValid.slot_map_self", "Gx.C04.index_bijective", "Gx.C04.slotOf_iff", "Gx.C04.layout_counts", "Gx.C04.init_sound", "Gx.C04.init_unknown_key",
               "Gx.C04.monitor_slots", "Gx.C04.rhs_slots", "Gx.C04.formals_are_permutations", "Gx.checkMonitor_sound", "Gx.checkRhs_sound"] + COMMON,
              ["Gx.Pins.orders_are_permutations", "Gx.Pins.argument_maps", "Gx.Pins.removal_flags"],
              ns.c04_run, ns.c04_case),
-    "C05": P("GotranxProofs.Properties.C05 GotranxProofs.GenValid GotranxProofs.SchemeEndToEnd",
-             ["Gx.SchemeEndToEnd.genEuler_correct", "Gx.GenValid.genEuler_valid", "Gx.C05.euler_eq_states_plus_dt_rhs", "Gx.C05.eval_eulerStore", "Gx.C05.eval_euler_printed", "Gx.C05.euler_dt_zero",
+    "C05": P("GotranxProofs.Properties.C05 GotranxProofs.GenValid GotranxProofs.SchemeEndToEnd GotranxProofs.EndToEndAll",
+             ["Gx.EndToEnd.euler_end_to_end", "Gx.SchemeEndToEnd.genEuler_correct", "Gx.GenValid.genEuler_valid", "Gx.C05.euler_eq_states_plus_dt_rhs", "Gx.C05.eval_eulerStore", "Gx.C05.eval_euler_printed", "Gx.C05.euler_dt_zero",
               "Gx.C05.inputs_untouched", "Gx.C05.euler_aliases", "Gx.checkScheme_sound", "Gx.checkRhs_sound_named"] + COMMON,
              ["Gx.Pins.scheme_aliases", "Gx.Pins.scheme_members_accepted"],
              ns.c05_run, ns.c05_case),
-    "C06": P("GotranxProofs.Properties.C06 GotranxProofs.GenValidRL GotranxProofs.SchemeEndToEnd",
-             ["Gx.SchemeEndToEnd.genGRL_correct", "Gx.SchemeEndToEnd.genGRL_formula", "Gx.SchemeEndToEnd.solution_withLin", "Gx.GenValidRL.genGRL_valid", "Gx.GenValidRL.rl_generators_valid", "Gx.DiffFv.sub_diff", "Gx.GenValidRL.checkNoHelperClash_sound", "Gx.C06.eval_rl_store", "Gx.C06.rl_fallback", "Gx.C06.rl_exponential", "Gx.C06.rlStore_guarded", "Gx.C06.rlStore_zero",
+    "C06": P("GotranxProofs.Properties.C06 GotranxProofs.GenValidRL GotranxProofs.SchemeEndToEnd GotranxProofs.EndToEndAll",
+             ["Gx.EndToEnd.grl_end_to_end", "Gx.SchemeEndToEnd.genGRL_correct", "Gx.SchemeEndToEnd.genGRL_formula", "Gx.SchemeEndToEnd.solution_withLin", "Gx.GenValidRL.genGRL_valid", "Gx.GenValidRL.rl_generators_valid", "Gx.DiffFv.sub_diff", "Gx.GenValidRL.checkNoHelperClash_sound", "Gx.C06.eval_rl_store", "Gx.C06.rl_fallback", "Gx.C06.rl_exponential", "Gx.C06.rlStore_guarded", "Gx.C06.rlStore_zero",
               "Gx.C06.diff_var_other", "Gx.C06.diff_var_self", "Gx.C06.grl_aliases_and_delta", "Gx.checkScheme_sound",
               "Gx.C06.linearisation_is_derivative", "Gx.C06.zero_linearisation_gives_euler", "Gx.C06.exact_for_affine", "Gx.C06.converges_to_euler",
               "Gx.C06.no_division_by_zero", "Gx.diff_correct", "Gx.diff_zero_of_not_mentions", "Gx.rl_exact_affine", "Gx.affine_flow_solves", "Gx.rl_first_order"] + COMMON,
@@ -68,8 +68,8 @@ PROPS = {
              ["Gx.coreLoad_idem", "Gx.ParseRender.parse_render", "Gx.ParseRender.text_denotes", "Gx.C11.writer_relations_in_grammar", "Gx.C11.writer_connectives_in_grammar", "Gx.C11.reload_preserves_values"],
              ["Gx.Pins.relop_table", "Gx.Pins.writer_overrides", "Gx.Pins.grammar_names", "Gx.Pins.grammar_keywords", "Gx.Pins.grammar_ladder"],
              ns.make_run(ss.c11_case, 30, 1000, ss.c11_cfg, extra=ss.c11_extra), ss.c11_case),
-    "C13": P("GotranxProofs.Properties.C13 GotranxProofs.GenValidMissing GotranxProofs.SplitEndToEnd GotranxProofs.SplitLoader",
-             ["Gx.SplitEndToEnd.loaded_split_wf", "Gx.SplitEndToEnd.closed_of_components", "Gx.SplitEndToEnd.split_rhs_correct", "Gx.SplitEndToEnd.split_missing_correct", "Gx.SplitEndToEnd.restrict_wf", "Gx.GenValidMissing.genMissing_valid", "Gx.GenValidMissing.genMissing_correct", "Gx.GenValidMissing.missBody_facts", "Gx.C13.missing_exact", "Gx.C13.missing_sorted", "Gx.C13.split_glue", "Gx.C13.restrict_assigns", "Gx.C13.missing_values_sound",
+    "C13": P("GotranxProofs.Properties.C13 GotranxProofs.GenValidMissing GotranxProofs.SplitEndToEnd GotranxProofs.SplitLoader GotranxProofs.EndToEndAll",
+             ["Gx.EndToEnd.missing_end_to_end", "Gx.SplitEndToEnd.loaded_split_wf", "Gx.SplitEndToEnd.closed_of_components", "Gx.SplitEndToEnd.split_rhs_correct", "Gx.SplitEndToEnd.split_missing_correct", "Gx.SplitEndToEnd.restrict_wf", "Gx.GenValidMissing.genMissing_valid", "Gx.GenValidMissing.genMissing_correct", "Gx.GenValidMissing.missBody_facts", "Gx.C13.missing_exact", "Gx.C13.missing_sorted", "Gx.C13.split_glue", "Gx.C13.restrict_assigns", "Gx.C13.missing_values_sound",
               "Gx.C13.states_partition", "Gx.C13.c_missing_index_name", "Gx.checkMissingValues_sound"] + COMMON,
              ["Gx.Pins.removal_flags"],
              ns.make_run(ss.c13_case, 14, 500, ss.c13_cfg), ss.c13_case),
